@@ -133,12 +133,12 @@ var (
 )
 
 // zzBudgetCheck: natively the bytes allocated since zzSetBudget are compared
-// with eight times the budget (the engine's allocation meter is the precise
+// with twice the budget (the engine's allocation meter is the precise
 // check; this is the native demonstration of an exhausted budget).
 func zzBudgetCheck() {
 	var ms runtime.MemStats
 	runtime.ReadMemStats(&ms)
-	if zzBudgetBytes > 0 && ms.TotalAlloc-zzBudgetBase > uint64(8*zzBudgetBytes) {
+	if zzBudgetBytes > 0 && ms.TotalAlloc-zzBudgetBase > uint64(2*zzBudgetBytes) {
 		panic(zzStop{"assert", "allocation budget"})
 	}
 }
